@@ -53,7 +53,9 @@ def to_line_graph(H, s=1, weights=None):
         )
     LG = nx.Graph()
 
-    LG.add_nodes_from([(k, {"original_hyperedge": v}) for k, v in H._edge.items()])
+    LG.add_nodes_from(
+        [(k, {"original_hyperedge": v.copy()}) for k, v in H._edge.items()]
+    )
 
     for e1, e2 in combinations(H._edge, 2):
         # Check that the intersection size is larger than s
